@@ -27,6 +27,7 @@ def make_schedule(seed, density, pages, start_error):
         s['status_delays'] = [r.choice(DELAYS[2:]) for _ in range(r.randrange(1, 3))]   # delays on the initial status answers
     if start_error:
         s['start_error'] = start_error
+    s['serial_suffix'] = r.choice(['J', 'J', 'B', '8', '6', '4', 'JB8', '4B6'])
     return s
 
 
@@ -46,7 +47,7 @@ def cases(draw):
         n = draw(st.integers(0, size))
     else:
         n = draw(st.integers(0, 6 * 1024))
-    return {'pages': pc, 'n': n, 'fw_seed': draw(st.integers(0, 2 ** 32)), 'tail': draw(st.sampled_from([0, 0, 1, 2])),
+    return {'pages': pc, 'n': n, 'fw_seed': draw(st.integers(0, 2 ** 32)), 'tail': draw(st.sampled_from([0, 0, 1, 2, 3])),
             'sched_seed': draw(st.integers(0, 2 ** 32)), 'density': draw(st.sampled_from([0.0, 0.1, 0.5, 1.0])),
             'start_error': draw(st.sampled_from([None, None, None, 10, 15, 4])), 'symlink': draw(st.integers(0, 3)) == 0}
 
@@ -167,7 +168,7 @@ def run(tier):
         step = 16385 // env.NPROC + 1
         chk.merge(env.run_shards(lengths_job, [(a, min(a + step, 16385)) for a in range(0, 16385, step)]))
     chk.rule = ('Hypothesis: bronzebeard.dfu.cli_main() in-process against a simulated DfuSe device (4 flash sizes; firmware length 0, 1, k*1024 '
-                '+ {-1,0,1}, size - {0,1,...}, drawn; content PRNG(seed) with 0x00/0xff tails; per-operation busy schedules of 0-4 (now and then 31-257) dfuDNBUSY answers '
+                '+ {-1,0,1}, size - {0,1,...}, drawn; content PRNG(seed) with 0x00/0xff tails or a DFU file suffix as the last 16 bytes; per-operation busy schedules of 0-4 (now and then 31-257) dfuDNBUSY answers '
                 'with poll delays 0..2^24-1 ms, delays on non-busy answers, device initially in dfuERROR, firmware path sometimes a symbolic link) with a virtual clock owned by the harness%s; plus 12 fixed runs in a `python -O` child process. '
                 'oracle: flash[0:len] == image, rest of last page 0x00, all other pages untouched; erase-before-write, addresses inside flash, '
                 'no request before a requested delay elapsed, DNLOAD only after the previous operation was polled to completion; exit status 0. '
